@@ -353,6 +353,9 @@ func (fw *fixedWindow) GetSystemFlow() *resourceTypes.ResourceFlowData {
 }
 
 func (fw *fixedWindow) GetQuotaGroupsCounters() map[string]int64 {
+	// quotaGroups grows while requests of new groups arrive (getQuota)
+	fw.getQuotaLock.Lock()
+	defer fw.getQuotaLock.Unlock()
 	counters := make(map[string]int64)
 	for key, quotaObj := range fw.quotaGroups {
 		counters[key] = quotaObj.GetCounter()
